@@ -615,6 +615,38 @@ func (env *Env) call(n *ast.CallExpr) (Val, error) {
 			out.L = append(out.L, sIte(c.one(), a.L[i], b.L[i]))
 		}
 		return out, nil
+	case "fnof", "bound":
+		// fnof(f): identity of the function a (statically known) function value denotes; bound(f, i): its i-th bound
+		// value (the receiver of a method value is binding 0). Unknown function values give unconstrained terms.
+		a, err := arg(0)
+		if err != nil {
+			return Val{}, err
+		}
+		if fname == "fnof" {
+			if a.Fn != nil {
+				return specVal(fx.funcHandle(a.Fn.Fn)), nil
+			}
+			return specVal(fx.c.fresh("fnof", "Int")), nil
+		}
+		lit, ok := n.Args[1].(*ast.BasicLit)
+		if !ok {
+			return Val{}, fmt.Errorf("bound(f, <index literal>)")
+		}
+		k, _ := strconv.Atoi(lit.Value)
+		if a.Fn != nil && k < len(a.Fn.Bindings) {
+			return Val{T: a.Fn.Bindings[k].T, L: a.Fn.Bindings[k].L}, nil
+		}
+		return specVal(fx.c.fresh("bound", "Int")), nil
+	case "fnid":
+		// fnid("<ssa function name>"): the identity constant of a named function (as printed by go/ssa)
+		lit, ok := n.Args[0].(*ast.BasicLit)
+		if !ok || lit.Kind != token.STRING {
+			return Val{}, fmt.Errorf("fnid(\"name\")")
+		}
+		name, _ := strconv.Unquote(lit.Value)
+		h := smtName("fn." + name)
+		fx.c.declare(h, "Int")
+		return specVal(h), nil
 	case "iterseen":
 		// iterseen(k): has the innermost enclosing map iteration already produced key k?
 		k, err := arg(0)
